@@ -365,6 +365,16 @@ def _bitvec(t, path, w, depth):
                 # x +/- 0
                 if bw == 0:
                     return bitvec(a, path, depth + 1)[:bits]
+                xa = bitvec(a, path, depth + 1)
+                xb = bitvec(b, path, depth + 1)
+                xa = (xa + [0] * bits)[:bits]
+                xb = (xb + [0] * bits)[:bits]
+                if op.startswith("Add") and all(p_ == 0 or q_ == 0 for p_, q_ in zip(xa, xb)):
+                    # no position where both can be 1: the sum has no carries, it is the bitwise or
+                    return [q_ if p_ == 0 else p_ for p_, q_ in zip(xa, xb)]
+                if op.startswith("Sub") and all(q_ == 0 or (q_ is not None and q_ == p_) for p_, q_ in zip(xa, xb)):
+                    # y = x & m (every bit of y is 0 or the same bit of x): x - y = x & !m, no borrows
+                    return [p_ if q_ == 0 else 0 for p_, q_ in zip(xa, xb)]
             if op.startswith("Mul") and (av == 0 or bw == 0):
                 return [0] * bits
             if op.startswith("Mul"):
@@ -1422,6 +1432,8 @@ class Interp:
         # --- iterator chains over arrays whose elements are known: ('citer', elements)
         if shortn in ("iter", "into_iter") and len(args) == 1:
             v = self._deref_all(path, args[0])
+            while v[0] == "deref":
+                v = v[1]
             if v[0] == "agg" and v[1] == "array" and len(v[3]) <= 64:
                 byref = shortn == "iter" or args[0][0] == "ref"
                 elems = []
@@ -1435,12 +1447,34 @@ class Interp:
                 return self._multi(path, frame, t, [(("citer", tuple(elems)), path)], depth)
             if v[0] == "citer":
                 return self._multi(path, frame, t, [(v, path)], depth)
-        if args and args[0][0] == "citer" and "Iterator" in (t["f"].get("def") or name):
-            it = args[0]
+            if v[0] == "agg" and v[1] == OPTION and v[2] is not None:
+                # an Option as an iterator of zero or one element
+                if v[2] == 0:
+                    return self._multi(path, frame, t, [(("citer", ()), path)], depth)
+                e = v[3][0]
+                if shortn == "iter" or args[0][0] == "ref":
+                    tmp = ("L", ("citer-elem", frame.fid, t["sp"], 0, len(path.events)), 0)
+                    path.store[tmp] = e
+                    e = ("ref", (tmp, ()), False)
+                return self._multi(path, frame, t, [(("citer", (e,)), path)], depth)
+        if args and "Iterator" in (t["f"].get("def") or name) and \
+                (args[0][0] == "citer" or (args[0][0] == "ref" and self._deref_all(path, args[0])[0] == "citer")):
+            it = self._deref_all(path, args[0])  # any / all / find / position take `&mut self`
             if shortn in ("copied", "cloned"):
                 return self._multi(path, frame, t, [(("citer", tuple(self._deref_all(path, e, 1) if e[0] == "ref" else e for e in it[1])), path)], depth)
             if shortn in ("rev",):
                 return self._multi(path, frame, t, [(("citer", it[1][::-1]), path)], depth)
+            if shortn == "chain" and len(args) == 2:
+                o_ = self._deref_all(path, args[1])
+                other = None
+                if o_[0] == "citer":
+                    other = o_[1]
+                elif o_[0] == "agg" and o_[1] == OPTION and o_[2] is not None:
+                    other = () if o_[2] == 0 else (o_[3][0],)
+                elif o_[0] == "agg" and o_[1] == "array":
+                    other = o_[3]
+                if other is not None:
+                    return self._multi(path, frame, t, [(("citer", tuple(it[1]) + tuple(other)), path)], depth)
             if shortn == "count" and len(args) == 1:
                 return self._multi(path, frame, t, [(INT(len(it[1]), 64), path)], depth)
             if shortn in ("filter", "map", "fold", "any", "all", "find", "position", "for_each", "sum", "max", "min") and \
@@ -1508,6 +1542,16 @@ class Interp:
             v = self._deref_all(path, args[0])
             if v[0] == "agg" and v[1] == "array":
                 return self._multi(path, frame, t, [(v, path)], depth)
+        if shortn == "contains" and len(args) == 2 and ("slice" in name or "[T]" in name or "array" in name):
+            v = self._deref_all(path, args[0])
+            while v[0] == "deref":
+                v = v[1]
+            x = self._deref_all(path, args[1])
+            if v[0] == "agg" and v[1] == "array":
+                xr = self.scalar_rank(x)
+                er = [self.scalar_rank(e) for e in v[3]]
+                if xr is not None and all(e is not None and e[0] == xr[0] for e in er):
+                    return self._multi(path, frame, t, [(INT(int(any(e[1] == xr[1] for e in er)), 8), path)], depth)
         if shortn == "len" and len(args) == 1:
             v = self._deref_all(path, args[0])
             if v[0] == "agg" and v[1] == "array":
@@ -1655,6 +1699,22 @@ class Interp:
                             e = self.binop(path, "Shl", e, INT(8 * i, 32), bits)
                         v = self.binop(path, "BitOr", v, e, bits)
                     return self._multi(path, frame, t, [(v, path)], depth)
+            if meth in ("checked_div", "checked_rem") and b is not None and not signed:
+                op = "Div" if meth.endswith("div") else "Rem"
+                z = self.binop(path, "Eq", b, INT(0, bits), 8)
+                d = self.decide(path, z)
+                outs = []
+                if d != 1:
+                    p_ok = path if d == 0 else path.copy()
+                    if d is None:
+                        self.assume_cond(p_ok, z, 0)
+                    p_ok.events.append(("divop", op, a, b, bits, signed))
+                    outs.append((SOME(self.binop(p_ok, op, a, b, bits, signed)), p_ok))
+                if d != 0:
+                    if d is None:
+                        self.assume_cond(path, z, 1)
+                    outs.append((NONE, path))
+                return self._multi(path, frame, t, outs, depth)
             if meth in ("saturating_add", "saturating_sub"):
                 op = "Add" if meth.endswith("add") else "Sub"
                 return self._multi(path, frame, t, [(("ret", meth, (a, b), 0), path)], depth)
@@ -1727,6 +1787,24 @@ class Interp:
                 else:
                     outs.append((NONE, p))
             return self._multi(path, frame, t, outs, depth)
+        if name.endswith("::transpose") and len(args) == 1 and name.startswith(("std::option::Option::<std::result::Result<", "std::result::Result::<std::option::Option<")):
+            v = args[0]
+            outs = []
+            if name.startswith("std::option"):   # Option<Result<T, E>> -> Result<Option<T>, E>
+                for vi, payload, p in self.split_result(path, v, OPTION):
+                    if vi != 1:
+                        outs.append((OK(NONE), p))
+                        continue
+                    for ri, rp, p3 in self.split_result(p, payload, RESULT):
+                        outs.append((OK(SOME(rp)) if ri == 0 else ERR(rp), p3))
+            else:                                # Result<Option<T>, E> -> Option<Result<T, E>>
+                for ri, rp, p in self.split_result(path, v, RESULT):
+                    if ri != 0:
+                        outs.append((SOME(ERR(rp)), p))
+                        continue
+                    for vi, payload, p3 in self.split_result(p, rp, OPTION):
+                        outs.append((SOME(OK(payload)) if vi == 1 else NONE, p3))
+            return self._multi(path, frame, t, outs, depth)
         # --- Option / Result
         if name.startswith(("std::option::Option::<T>::", "std::result::Result::<T, E>::")):
             meth = name.rsplit("::", 1)[1]
@@ -1777,6 +1855,49 @@ class Interp:
                 return self._multi(path, frame, t, outs, depth)
             if meth in ("cloned", "copied", "as_ref", "as_mut"):
                 return self._multi(path, frame, t, [(v, path)], depth)
+            if meth == "filter" and is_opt and len(args) == 2:
+                def gen_filter():
+                    for vi, payload, p in self.split_result(path, v, OPTION):
+                        if vi != 1:
+                            yield from self.cont(frame, t, p, NONE, depth)
+                            continue
+                        tmp = ("L", ("filter-arg", frame.fid, t["sp"], len(p.events)), 0)
+                        p.store[tmp] = payload
+                        res = self._call_closure_value(p, frame, t, args[1], [("ref", (tmp, ()), False)], depth, "filter")
+                        if res is None:
+                            yield from self._opaque(p, frame, t, name, args, depth, havoc=True)
+                            continue
+                        for o in res:
+                            if o.kind != "return":
+                                yield o
+                                continue
+                            d_ = self.decide(o.path, o.value)
+                            if d_ is None:
+                                p2 = o.path.copy()
+                                self.assume_cond(o.path, o.value, 1)
+                                self.assume_cond(p2, o.value, 0)
+                                yield from self.cont(frame, t, o.path, SOME(payload), depth)
+                                yield from self.cont(frame, t, p2, NONE, depth)
+                            else:
+                                yield from self.cont(frame, t, o.path, SOME(payload) if d_ else NONE, depth)
+                return gen_filter()
+            if meth == "transpose" and len(args) == 1:
+                outs = []
+                if is_opt:   # Option<Result<T, E>> -> Result<Option<T>, E>
+                    for vi, payload, p in self.split_result(path, v, OPTION):
+                        if vi != 1:
+                            outs.append((OK(NONE), p))
+                            continue
+                        for ri, rp, p3 in self.split_result(p, payload, RESULT):
+                            outs.append((OK(SOME(rp)) if ri == 0 else ERR(rp), p3))
+                else:        # Result<Option<T>, E> -> Option<Result<T, E>>
+                    for ri, rp, p in self.split_result(path, v, RESULT):
+                        if ri != 0:
+                            outs.append((SOME(ERR(rp)), p))
+                            continue
+                        for vi, payload, p3 in self.split_result(p, rp, OPTION):
+                            outs.append((SOME(OK(payload)) if vi == 1 else NONE, p3))
+                return self._multi(path, frame, t, outs, depth)
             if meth == "map" and len(args) == 2:
                 def gen_map():
                     for vi, payload, p in self.split_result(path, v, OPTION if is_opt else RESULT):
@@ -1786,6 +1907,17 @@ class Interp:
                         clos = self._deref_all(p, args[1])
                         cb = self.F.bodies.get(clos[1][8:]) if clos[0] == "agg" and clos[1].startswith("closure:") else None
                         wrap = SOME if is_opt else OK
+                        if cb is None and clos[0] == "fn":
+                            # a function item / path as the mapper (e.g. `.map(T::try_from)`)
+                            fnp = clos[2] or clos[1]
+                            fb = self.F.bodies.get(fnp)
+                            if fb is not None and not fb.get("coroutine"):
+                                for o in self.call_body(fb, [payload], p, frame, depth + 1):
+                                    if o.kind == "return":
+                                        yield from self.cont(frame, t, o.path, wrap(o.value), depth)
+                                    else:
+                                        yield o
+                                continue
                         if cb is None:
                             yield from self.cont(frame, t, p, wrap(("ret", "map", (self.norm_arg(p, args[1]), payload), 0)), depth)
                             continue
@@ -1867,6 +1999,11 @@ class Interp:
     def _call_closure_value(self, path, frame, t, clos, cargs, depth, tag):
         """outcomes of calling a closure value with explicit arguments, or None when it is not a local closure"""
         clos = self._deref_all(path, clos)
+        if clos[0] == "fn":
+            fb = self.F.bodies.get(clos[2] or clos[1]) or self.F.bodies.get(clos[1])
+            if fb is None or depth >= self.max_depth or fb.get("coroutine"):
+                return None
+            return list(self.call_body(fb, list(cargs), path, frame, depth + 1))
         if clos[0] != "agg" or not clos[1].startswith("closure:"):
             return None
         cb = self.F.bodies.get(clos[1][8:])
